@@ -147,7 +147,9 @@ def convert(raw, sid):
             d["ns"] = p["ns"]
         return d
 
-    for h in raw["hist"]:
+    failvar = cust and int(sid.rsplit("-", 1)[1]) % 2 == 0
+    failed_once = pending_fail = False
+    for hi, h in enumerate(raw["hist"]):
         op = h["op"]
         w.k += 1
         if op[0] == "p":
@@ -185,7 +187,12 @@ def convert(raw, sid):
                 sched.append({"s": "relist", "res": pres, "name": "zz-gap", "ns": "zz"})
             else:
                 raise ValueError(op)
-            if cust and op in ("pcreate", "prelabel", "pspec", "pdelete"):
+            if cust and op == "pspec" and failvar and not failed_once and any(x["op"] in ("rtouch", "rrelabel", "rdelete") for x in raw["hist"][hi + 1:]):
+                # variant: the parent's new generation is NOT synced before the next related-object event, and the customize
+                # call the handlers then make for it fails once: the other parent (answer cached) is woken all the same
+                failed_once = True
+                pending_fail = True
+            elif cust and op in ("pcreate", "prelabel", "pspec", "pdelete"):
                 # what a worker would do with the parent the event has just queued
                 sched += sync_all()
         elif op[0] == "c":
@@ -232,6 +239,9 @@ def convert(raw, sid):
                               "obj": {"res": "configmaps", "name": rel["name"], "ns": rel["ns"], "labels": {"r": rel["lab"]}, "top": {"data": {"k": "v"}}}})
                 continue
             rref = {"res": "configmaps", "name": rel["name"], "ns": rel["ns"]}
+            if pending_fail:
+                sched.append({"s": "hookfault", "hook": "customize", "code": 500})
+                pending_fail = False
             if op == "rrelabel":
                 rel["lab"] = "2" if rel["lab"] == "1" else "1"
                 sched.append(dict(rref, s="ev", op="relabel", labels={"r": rel["lab"]}))
